@@ -1,7 +1,7 @@
 SPECIFICATION Spec
 CONSTANTS
   FSet = {1, 2, 3, 4, 5, 6, 7, 12}
-  TSet = {1, 2, 3, 4, 6, 12}
+  TSet = {1, 2, 3, 4, 6, 7, 9, 12}
   LoSet = {0, 3}
   EmitOn = FALSE
 INVARIANT StrictlyIncreasing
